@@ -214,7 +214,7 @@ def mode_obligations():
     o.append(Ob('mode_AesEncrypt_ctor', ['C10', 'C18', 'C02'], enforce='AesEncrypt__ctor', replace=['Aesmode__ctor', 'encryaes__ctor'], **MODE))
     o.append(Ob('mode_AesDecrypt_ctor', ['C10', 'C18', 'C02'], enforce='AesDecrypt__ctor', replace=['Aesmode__ctor', 'decryaes__ctor'], **MODE))
     o.append(Ob('mode_factory', ['C10', 'C18', 'C02', 'C11'], enforce='AesFactory__createCryMaster',
-                replace=[c + '__ctor' for c, _, _ in MODE_CLASSES], **MODE,
+                replace=[c + '__ctor' for c, _, _ in MODE_CLASSES], solver='minisat', timeout=600, **MODE,
                 note='factory maps (direction, mode number 0..4) to the stream class; NULL for other numbers'))
     # decryptor inverts encryptor: one step of each pair over the contracts (the induction step for streams of any length)
     pairs = [('AesECB_Enc', 'AesECB_Dec'), ('AesCBC_Enc', 'AesCBC_Dec'), ('AesCTR', 'AesCTR'), ('AesCFB_Enc', 'AesCFB_Dec'), ('AesOFB', 'AesOFB')]
@@ -255,7 +255,7 @@ def hash_obligations():
     pb = 'P-B: every round/step is checked against the standard\'s round function for an arbitrary pre-state (loop contract / cut points); the round count and the feed-forward are postconditions'
     o.append(Ob('sha256_compress', P, enforce='sha256hash__getHash_1', unwind=66, timeout=900, note=pb, **HASH))
     o.append(Ob('sha1_compress', P, enforce='sha1hash__getHash_1', unwind=82, timeout=900, note=pb, **HASH))
-    o.append(Ob('md5_compress', P, enforce='md5hash__getHash_1', unwind=66, timeout=900, note=pb, **HASH))
+    o.append(Ob('md5_compress', P, enforce='md5hash__getHash_1', unwind=66, timeout=900, note=pb, solver='minisat', **HASH))
     for c in ('sha256hash', 'sha1hash', 'md5hash'):
         o.append(Ob(c + '_final', P, enforce=c + '__getHash_2', replace=[c + '__getHash_1'], unwind=66, timeout=600, **HASH,
                     note='padding rule for every residue r < 64 and the 64-bit length field, observed at an arbitrary byte of either final block'))
